@@ -13,11 +13,17 @@ COQ_IMPORTS = "From FT Require Import Model.Base Model.Obs Model.C12Eq Model.C12
 CHECK_VO = ["Model/C12Check.v"]
 CHECKER = "c12_checker"
 CASE_TYPE = "c12_case"
-SHARD = 120
+SHARD = 60
 
-RULE = ("case = 1-3 fibertrees of one common depth 1-3, each with its own leaf default, rank ids, rank "
-        "shapes and ownership mode (0 = unowned fiber, 1 = root of a tensor, 2 = sub-fiber of a larger "
-        "tensor); trees are built as (canonical tree) + (explicit defaults, zero-length sub-fibers, "
+RULE = ("case = 1-3 fibertrees of one common depth 1-3, each with its own leaf default (0, 3, or the "
+        "sentinel -999983 = the implementation is given default=None, 'no empty value', and the trees store "
+        "zeros), rank ids, rank shapes (declared, or [] = left to be estimated) and construction history "
+        "(0 = unowned fiber, 1 = root of a tensor made by fromFiber, 2 = sub-fiber of a larger tensor, "
+        "3 = tensor grown by appending every top-level element (multi-level sub-trees) to an empty tensor, "
+        "4 = fromFiber prefix + extend, 5 = zero-length placeholders replaced by item assignment, "
+        "6 = the whole tree appended as a sub-tree to the root of a tensor with one more rank); values are "
+        "handed over as int / float / int subclass and fibers are optionally built in two stages around a "
+        "battery of read-only queries (ftutil representation modes); trees are built as (canonical tree) + (explicit defaults, zero-length sub-fibers, "
         "sub-fibers holding only explicit defaults) so that equal-content pairs are frequent, plus "
         "single-deep-leaf differences, one-sided tails, different defaults and different rank ids; "
         "observation = per tree isEmpty, countValues (fiber and tensor), snapshot of nonEmpty(), "
@@ -31,7 +37,9 @@ TRUSTED = ["Coq 8.16.1 kernel (coqc; coqchk in the thorough tier); vm_compute us
            "of this run (sampled + exhaustive small scope)",
            "harness: harness/check.py, harness/props/c12.py, harness/ftutil.py (build_fiber, build_tensor, "
            "snap), CPython 3.12 running the implementation"]
-ASSUMPTIONS = ["compressed ranks only (a 'U' rank presents every coordinate to the union iterator; outside "
+ASSUMPTIONS = ["default None ('no empty value') is modelled by a default that no leaf holds (-999983); the "
+               "model never uses the default arithmetically, only compares leaves with it",
+               "compressed ranks only (a 'U' rank presents every coordinate to the union iterator; outside "
                "the property's quantifier)",
                "integer leaf values and coordinates (NaN would falsify reflexivity for reasons outside fibertree)",
                "all compared trees have the same depth; coordinates strictly increasing in every fiber"]
@@ -42,6 +50,8 @@ EXPLANATION = ("theorems: fiber_eq (two-finger union walk + mask inspection) = t
                "outputs; C12_model_meets_spec ties both")
 
 NCOORD = 5
+NONE_D = -999983        # sentinel default: the implementation gets default=None (nothing is empty)
+GROWN = (3, 4, 5, 6)
 
 
 # ------------------------------------------------------------------ generators (pure)
@@ -64,7 +74,7 @@ def gen_canon(rng, depth, p_absent, vals):
 def empty_tree(rng, depth, d):
     """an empty fiber of the given depth: zero-length, or holding only explicit defaults /
     empty sub-fibers"""
-    if rng.random() < 0.4:
+    if rng.random() < 0.4 or (depth == 1 and d == NONE_D):
         return []
     es = []
     for c in range(NCOORD):
@@ -82,7 +92,7 @@ def decorate(rng, t, depth, d, p):
     for c in range(NCOORD):
         if c in have:
             es.append([c, have[c] if depth == 1 else decorate(rng, have[c], depth - 1, d, p)])
-        elif rng.random() < p:
+        elif rng.random() < p and not (depth == 1 and d == NONE_D):
             es.append([c, d if depth == 1 else empty_tree(rng, depth - 1, d)])
     return es
 
@@ -157,7 +167,7 @@ def perturb(rng, t, depth, d, vals):
     if kind == "change":
         return set_leaf(t, p, rng.choice(vals))
     if kind == "default":
-        return set_leaf(t, p, d)
+        return set_leaf(t, p, 0 if d == NONE_D else d)
     return del_leaf(t, p)
 
 
@@ -173,22 +183,33 @@ def max_coords(t, depth):
     return m
 
 
-def mk_item(rng, tree, depth, d, ids=None):
+def mk_item(rng, tree, depth, d, ids=None, modes=(0, 0, 1, 1, 2, 3, 4, 5, 6)):
     shape = [m + 1 + rng.choice([0, 0, 1, 3]) for m in max_coords(tree, depth)]
+    if rng.random() < 0.25:
+        shape = []          # not declared: the implementation estimates it
     return {"d": d, "tree": tree, "ids": list(ids if ids is not None else range(depth)),
-            "mode": rng.choice([0, 0, 1, 1, 2]), "shape": shape}
+            "mode": rng.choice(modes), "shape": shape}
 
 
-def gen_case(rng, depth=None, n=None):
+def gen_case(rng, depth=None, n=None, d=None, modes=(0, 0, 1, 1, 2, 3, 4, 5, 6)):
     depth = depth or rng.choice([1, 2, 2, 3, 3])
     n = n or rng.choice([2, 3, 3])
-    d = rng.choice([0, 0, 0, 3])
+    if d is None:
+        d = rng.choice([0, 0, 0, 3, NONE_D])
     d2 = d
-    vals = [v for v in range(0, 8) if v not in (0, 3)] if rng.random() < 0.5 else \
-        [v for v in range(0, 6) if v != d]
-    if rng.random() < 0.15:
+    if d == NONE_D:
+        vals = [0, 0, 0, 1, 2, 5]       # zeros are ordinary values under default None
+    else:
+        vals = [v for v in range(0, 8) if v not in (0, 3)] if rng.random() < 0.5 else \
+            [v for v in range(0, 6) if v != d]
+    r = rng.random()
+    if r < 0.15 and d != NONE_D:
         d2 = 3 - d          # a second tree with another default (0 <-> 3)
         vals = [v for v in vals if v not in (0, 3)]
+    elif r < 0.25:
+        d2 = 0 if d == NONE_D else NONE_D      # None against a numeric default
+        if rng.random() < 0.5:
+            vals = [v for v in vals if v not in (0, 3)] or [1, 2]
     p_absent = rng.choice([0.2, 0.5, 0.5, 0.7, 0.9, 1.0])
     base = gen_canon(rng, depth, p_absent, vals)
     p_dec = rng.choice([0.0, 0.2, 0.5])
@@ -207,11 +228,11 @@ def gen_case(rng, depth=None, n=None):
             ids[rng.randrange(depth)] = 7
         elif depth > 1 and rng.random() < 0.05:
             ids = ids[::-1]
-        items.append(mk_item(rng, t, depth, dk, ids))
+        items.append(mk_item(rng, t, depth, dk, ids, modes))
     return {"depth": depth, "items": items}
 
 
-def exhaustive_depth1(ncoord, rng):
+def exhaustive_depth1(ncoord, rng, d=0):
     states = [None, 0, 1, 2]
     trees = []
     for combo in itertools.product(states, repeat=ncoord):
@@ -220,12 +241,12 @@ def exhaustive_depth1(ncoord, rng):
     for a in trees:
         for b in trees:
             cases.append({"depth": 1, "items": [
-                {"d": 0, "tree": a, "ids": [0], "mode": 0, "shape": [ncoord]},
-                {"d": 0, "tree": b, "ids": [0], "mode": 1, "shape": [ncoord]}]})
+                {"d": d, "tree": a, "ids": [0], "mode": 0, "shape": [ncoord]},
+                {"d": d, "tree": b, "ids": [0], "mode": 1, "shape": [ncoord]}]})
     return cases
 
 
-def exhaustive_depth2(rng):
+def exhaustive_depth2(rng, d=0, modes=(1, 0)):
     """depth 2 over 2x2 coordinates: per upper coordinate absent / zero-length / every lower fiber"""
     lows = [[[c, v] for c, v in enumerate(combo) if v is not None]
             for combo in itertools.product([None, 0, 1], repeat=2)]
@@ -237,8 +258,8 @@ def exhaustive_depth2(rng):
     for a in trees:
         for b in trees:
             cases.append({"depth": 2, "items": [
-                {"d": 0, "tree": a, "ids": [0, 1], "mode": 1, "shape": [2, 2]},
-                {"d": 0, "tree": b, "ids": [0, 1], "mode": 0, "shape": [2, 2]}]})
+                {"d": d, "tree": a, "ids": [0, 1], "mode": modes[0], "shape": [2, 2]},
+                {"d": d, "tree": b, "ids": [0, 1], "mode": modes[1], "shape": [2, 2]}]})
     return cases
 
 
@@ -252,9 +273,16 @@ def wf_tree(t, depth):
     return all(x < y for x, y in zip(cs, cs[1:])) and all(wf_tree(s, depth - 1) for _, s in t)
 
 
+def stores(t, v):
+    if isinstance(t, int):
+        return t == v
+    return any(stores(s, v) for _, s in t)
+
+
 def wf_case(case):
     return case["depth"] >= 1 and all(
-        wf_tree(it["tree"], case["depth"]) and len(it["ids"]) == case["depth"] for it in case["items"])
+        wf_tree(it["tree"], case["depth"]) and len(it["ids"]) == case["depth"]
+        and not stores(it["tree"], NONE_D) for it in case["items"])
 
 
 def streams(tier, rng):
@@ -264,15 +292,31 @@ def streams(tier, rng):
 
 
 def _streams(tier, rng):
-    n = 500 if tier == "quick" else 8000
-    yield ("random", [gen_case(rng) for _ in range(n)], False)
-    yield ("exhaustive-depth1-2coords", exhaustive_depth1(2, rng), True)
+    # (streams are evaluated one after the other, shards of one stream in parallel: the quick tier
+    # therefore packs its generators into three streams)
+    n = 400 if tier == "quick" else 8000
+    rnd = [gen_case(rng) for _ in range(n)]
+    # construction histories: multi-level sub-trees inserted into owned fibers (>= 3 ranks involved)
+    grown = [gen_case(rng, depth=rng.choice([2, 3, 3]), modes=GROWN + (1,)) for _ in range(n // 3)]
+    # default None: every stored leaf, also a 0, is a point
+    none = [gen_case(rng, d=NONE_D) for _ in range(n // 3)]
     if tier == "quick":
-        yield ("exhaustive-depth1-3coords-sample", rng.sample(exhaustive_depth1(3, rng), 300), False)
-        yield ("exhaustive-depth2-2x2-sample", rng.sample(exhaustive_depth2(rng), 300), False)
+        yield ("random+grown+none-default", rnd + grown + none, False)
+        yield ("exhaustive-depth1-2coords(default 0, default None)",
+               exhaustive_depth1(2, rng) + exhaustive_depth1(2, rng, NONE_D), True)
+        yield ("samples-of-exhaustive(depth1-3coords, depth2-2x2, depth2-2x2-grown)",
+               rng.sample(exhaustive_depth1(3, rng), 250) + rng.sample(exhaustive_depth2(rng), 250)
+               + rng.sample(exhaustive_depth2(rng, 0, (6, 1)), 150), False)
     else:
+        yield ("random", rnd, False)
+        yield ("grown", grown, False)
+        yield ("none-default", none, False)
+        yield ("exhaustive-depth1-2coords", exhaustive_depth1(2, rng), True)
+        yield ("exhaustive-depth1-2coords-none-default", exhaustive_depth1(2, rng, NONE_D), True)
         yield ("exhaustive-depth1-3coords", exhaustive_depth1(3, rng), True)
         yield ("exhaustive-depth2-2x2", exhaustive_depth2(rng), True)
+        yield ("exhaustive-depth2-2x2-grown", exhaustive_depth2(rng, 0, (6, 1)), True)
+        yield ("exhaustive-depth2-2x2-none-default", exhaustive_depth2(rng, NONE_D, (3, 0)), True)
 
 
 def nontrivial(case):
@@ -291,6 +335,11 @@ def describe(case):
             "explicit_default": any(U.has_explicit_default(it["tree"], it["d"]) for it in its),
             "empty_subfiber": any(U.has_empty_sub(it["tree"], it["d"]) for it in its),
             "different_defaults": len({it["d"] for it in its}) > 1,
+            "none_default": any(it["d"] == NONE_D for it in its),
+            "none_default_stores_zero": any(it["d"] == NONE_D and any(v == 0 for _, v in cs[i])
+                                            for i, it in enumerate(its)),
+            "grown_history": any(it["mode"] in GROWN for it in its),
+            "estimated_shape": any(not it["shape"] for it in its),
             "different_rank_ids": len({tuple(it["ids"]) for it in its}) > 1,
             "modes": "".join(str(it["mode"]) for it in its)}
 
@@ -304,20 +353,83 @@ def case_to_coq(c):
 
 # ------------------------------------------------------------------ implementation side
 
+def _none_default(f):
+    from fibertree import Fiber
+    f._setDefault(None)
+    for p in f.payloads:
+        if isinstance(p, Fiber):
+            _none_default(p)
+
+
+def _payload(s, d):
+    return U.dress(s) if isinstance(s, int) else U.build_fiber(s, d)
+
+
+def _tensor(tree, depth, shape, d, names):
+    """fromFiber tensor; d == NONE_D: the tensor's default is replaced by None"""
+    T = U.build_tensor(tree, depth, shape or None, d, rank_ids=names)
+    if d == NONE_D:
+        T.setDefault(None)
+    return T
+
+
+def _empty_tensor(shape, d, names):
+    from fibertree import Tensor
+    T = Tensor(rank_ids=list(names), shape=(list(shape) if shape else None))
+    if d == NONE_D:
+        T.setDefault(None)
+    elif d != 0:
+        T.setDefault(U.dress(d))
+    return T
+
+
 def build_item(it, depth):
     """-> (fiber under test, tensor with the item's rank ids, owner to keep alive)"""
     names = ["R%d" % k for k in it["ids"]]
+    tree, d, shape, mode = it["tree"], it["d"], it["shape"], it["mode"]
     keep = None
-    T = U.build_tensor(it["tree"], depth, it["shape"], it["d"], rank_ids=names)
-    if it["mode"] == 0:
-        F = U.build_fiber(it["tree"], it["d"])
-    elif it["mode"] == 1:
+    if mode == 3 or (mode in (4, 5) and (depth == 1 or not tree)):
+        # grown: every top-level element (a leaf or a multi-level sub-tree) appended to an empty tensor
+        T = _empty_tensor(shape, d, names)
+        for c, s in tree:
+            T.getRoot().append(c, _payload(s, d))
+            if U.MODE["touch"]:
+                U.touch(T.getRoot())
+        return T.getRoot(), T, None
+    if mode == 4:
+        # fromFiber prefix, the rest by extend (extend ignores an operand that isEmpty(): append then)
+        k = len(tree) // 2
+        T = _tensor(tree[:k], depth, shape, d, names)
+        rest = tree[k:]
+        if U.is_empty_lit(rest, d):
+            for c, s in rest:
+                T.getRoot().append(c, _payload(s, d))
+        else:
+            T.getRoot().extend(U.build_fiber(rest, d))
+        return T.getRoot(), T, None
+    if mode == 5:
+        # zero-length placeholders, then item assignment of the real sub-trees
+        T = _tensor([[c, []] for c, _ in tree], depth, shape, d, names)
+        for i, (c, s) in enumerate(tree):
+            T.getRoot()[i] = U.build_fiber(s, d)
+        return T.getRoot(), T, None
+    T = _tensor(tree, depth, shape, d, names)
+    if mode == 0:
+        F = U.build_fiber(tree, d)
+        if d == NONE_D:
+            _none_default(F)
+    elif mode == 1:
         F = T.getRoot()
-    else:
-        T2 = U.build_tensor([[1, it["tree"]]], depth + 1, [2] + it["shape"], it["d"],
-                            rank_ids=["X"] + names)
+    elif mode == 2:
+        T2 = _tensor([[1, tree]], depth + 1, ([2] + shape) if shape else None, d, ["X"] + names)
         F = T2.getRoot().getPayload(1)
         keep = T2              # keep the owning tensor alive
+    else:
+        # 6: the whole tree appended as one sub-tree to the root of a tensor with one more rank
+        T2 = _empty_tensor(([2] + shape) if shape else None, d, ["X"] + names)
+        T2.getRoot().append(1, U.build_fiber(tree, d))
+        F = T2.getRoot().getPayload(1)
+        keep = T2
     return F, T, keep
 
 
